@@ -1170,7 +1170,9 @@ class Definition(Macro):
     definition = None # type: Optional[str]
 
     def invoke(self, tex):
-        if not self.args: return self.definition
+        # No parameters: the replacement text still has its doubled
+        # parameter characters reduced (## -> #)
+        if not self.args: return expandDef(self.definition, [None])
 
         name = macroName(self)
         args = list(self.args)
